@@ -1331,9 +1331,10 @@ impl<'a> Run<'a> {
         if held >= 2 {
             w(|x| x.labels |= lb::SETTLED);
         }
-        // every call that stops early (and wakes its task) has consumed at least one stale queue entry, whatever
-        // the crate's per-call budget is
-        let bound = held + 2 + v;
+        // I3: a call may wake its own task only after a full budget of queue entries; stale entries must be worked
+        // off at the same rate as live ones. The budget is measured on the crate under test, not assumed.
+        let b = measured_budget();
+        let bound = held + 2 + (v + b - 1) / b;
         let mut spins = 0u64;
         let mut guard = 0u64;
         loop {
@@ -1972,6 +1973,8 @@ pub fn probe_cb(pr: futures_buffered::verif::Probe) {
 }
 
 pub fn install_hooks() {
+    // measure the crate's per-call budget before any probe is installed and before any case is active
+    let _ = measured_budget();
     futures_buffered::verif::set_probe(Some(probe_cb));
 }
 
@@ -2200,4 +2203,42 @@ fn run_case_inner(case: &Case, trace: bool, alloc_on: bool, focus: u32) -> CaseR
         log,
         aborted,
     }
+}
+
+
+/// The per-call budget of the crate under test, measured once per process: how often one permanently self-waking
+/// child of a capacity-1 `FuturesUnorderedBounded` is polled by a single `poll_next` before the call gives up.
+/// (61 today. A crate without any budget is cut off at 100000 and reported by the C13 checks, not here.)
+pub fn measured_budget() -> u64 {
+    use std::future::Future;
+    use std::pin::Pin;
+    use std::sync::atomic::{AtomicU64, Ordering};
+    use std::sync::OnceLock;
+    use std::task::Poll;
+    static B: OnceLock<u64> = OnceLock::new();
+    static CNT: AtomicU64 = AtomicU64::new(0);
+    struct Spin;
+    impl Future for Spin {
+        type Output = ();
+        fn poll(self: Pin<&mut Self>, cx: &mut Context<'_>) -> Poll<()> {
+            if CNT.fetch_add(1, Ordering::Relaxed) < 100_000 {
+                cx.waker().wake_by_ref();
+            }
+            Poll::Pending
+        }
+    }
+    struct Noop;
+    impl std::task::Wake for Noop {
+        fn wake(self: std::sync::Arc<Self>) {}
+    }
+    *B.get_or_init(|| {
+        CNT.store(0, Ordering::Relaxed);
+        let mut q = futures_buffered::FuturesUnorderedBounded::new(1);
+        q.push(Spin);
+        let wk = Waker::from(std::sync::Arc::new(Noop));
+        let mut cx = Context::from_waker(&wk);
+        let _ = futures_core::Stream::poll_next(Pin::new(&mut q), &mut cx);
+        drop(q);
+        CNT.load(Ordering::Relaxed).max(1)
+    })
 }
